@@ -244,7 +244,7 @@ ROW_SHAPES = {
     "fp_boxdyn": ("Box<dyn Filter>", "TFilter", "fp", 1), "fp_arcdyn": ("Arc<dyn Filter>", "TFilter", "fp", 1),
     "fp_some": ("Option<F>", "TFilter", "fp", 1), "fp_reload": ("reload::Subscriber", "TFilter", "fp", 1),
 }
-FORWARDING_CLASS = ("Fwd", "(FwdOpt", "(FwdAll", "(FwdLock")
+FORWARDING_CLASS = ("Fwd", "(FwdOpt", "(FwdAll", "(FwdLock", "(FwdTryLock")     # single-threaded, a try_read forwards too
 
 
 def has_empty_vec(t):
